@@ -102,7 +102,22 @@ where
     ) -> Result<Option<ResetToken>, Error> {
         let seq = frame.sequence();
         let retire_prior_to = frame.retire_prior_to();
-        let active_len = seq.saturating_sub(retire_prior_to);
+        // Discard the frame if the sequence number is less than the current offset.
+        if seq < self.cid_deque.offset() {
+            return Ok(None);
+        }
+
+        let id = *frame.connection_id();
+        let token = *frame.reset_token();
+        self.cid_deque.insert(seq, Some((seq, id, token))).unwrap();
+        self.retire_prior_to(retire_prior_to);
+        self.arrange_idle_cid();
+
+        // RFC 9000 section 5.1.1: after adding the new connection ID and retiring those below
+        // retire_prior_to, the connection IDs that are stored and not yet retired by one of our
+        // paths are the active ones; more of them than we advertised is an error.
+        let retired = self.ready_cells.iter().filter(|c| c.is_retired()).count();
+        let active_len = self.cid_deque.iter().flatten().count().saturating_sub(retired) as u64;
         if active_len > self.active_cid_limit {
             return Err(QuicError::new(
                 ErrorKind::ConnectionIdLimit,
@@ -114,17 +129,6 @@ where
             )
             .into());
         }
-
-        // Discard the frame if the sequence number is less than the current offset.
-        if seq < self.cid_deque.offset() {
-            return Ok(None);
-        }
-
-        let id = *frame.connection_id();
-        let token = *frame.reset_token();
-        self.cid_deque.insert(seq, Some((seq, id, token))).unwrap();
-        self.retire_prior_to(retire_prior_to);
-        self.arrange_idle_cid();
 
         Ok(Some(token))
     }
